@@ -576,6 +576,8 @@ def judge_producer(world, h, relaxed):
                           f'{n}x; model expects {expected.get(k, 0)}x'
                           + (f' (expected handler {others[0][0]})' if others else ''))
     for k, n in expected.items():
+        if k[1:] in skip_keys:
+            continue        # an unjudged (ambiguous) packet shares name, nonce and parameters: its deliveries were not counted
         if actual.get(k, 0) < n:
             world.violate('C04', 'dispatch-missing', fe, 'dispatch',
                           f'Interest {_fmt_name(k[1])} nonce={k[2]} should reach handler {k[0]} {n}x, '
